@@ -517,8 +517,146 @@ class Expander:
             if not changed:
                 break
 
+    # ------------------------------------------------------------------ generators
+    def _gen_target(self, modname, cls, caller, call: ast.Call):
+        """(qual, helper def, receiver) when the call is to a NEW generator helper that can be spliced into a loop over it: yields
+        only as statements, no `return`, no `yield from`, no nested definitions."""
+        f = call.func
+        selfname = caller.args.args[0].arg if cls is not None and caller.args.args and not any(ast.unparse(d) == "staticmethod" for d in caller.decorator_list) else None
+        if isinstance(f, ast.Attribute) and isinstance(f.value, ast.Name) and selfname is not None and f.value.id == selfname and cls is not None:
+            r = self._method(modname, cls, f.attr)
+            if r is None or self._overridden_below(modname, cls, f.attr):
+                return None
+            qual, h = r
+            recv = f.value
+        elif isinstance(f, ast.Name) and f.id in self.mod_funcs.get(modname, {}):
+            h, qual, recv = self.mod_funcs[modname][f.id], f"{modname}:{f.id}", None
+        else:
+            return None
+        if qual in self.known or h is caller or h.decorator_list or h.args.vararg or h.args.kwarg or h.args.posonlyargs:
+            return None
+        ys = [x for x in ast.walk(h) if isinstance(x, ast.Yield)]
+        if not ys or _has(h, (ast.YieldFrom, ast.Await, ast.Global, ast.Nonlocal, ast.Return, ast.Lambda)) or any(isinstance(x, (ast.FunctionDef, ast.ClassDef)) and x is not h for x in ast.walk(h)):
+            return None
+        stmt_yields = {id(x.value) for x in ast.walk(h) if isinstance(x, ast.Expr) and isinstance(x.value, ast.Yield)}
+        if any(id(y) not in stmt_yields or y.value is None for y in ys):
+            return None
+        if any(isinstance(a, ast.Starred) for a in call.args) or any(k.arg is None for k in call.keywords):
+            return None
+        return qual, h, recv
+
+    def _splice_generators(self, modname, cls, fn: ast.FunctionDef):
+        """`for T in self._gen(args): BODY` over a new generator helper is the helper's body with every `yield v` replaced by
+        `T = v; BODY` (the very interleaving a lazily consumed generator has). A comprehension over such a call, in a plain
+        assignment or return, is first written as the accumulation loop it abbreviates."""
+        for owner in list(ast.walk(fn)):
+            for field in ("body", "orelse", "finalbody"):
+                blk = getattr(owner, field, None)
+                if not (isinstance(blk, list) and blk and isinstance(blk[0], ast.stmt)):
+                    continue
+                i = 0
+                while i < len(blk):
+                    st = blk[i]
+                    # comprehension over a generator helper -> accumulation loop
+                    comp = st.value if isinstance(st, (ast.Assign, ast.Return)) and isinstance(getattr(st, "value", None), ast.ListComp) else None
+                    if comp is not None and len(comp.generators) == 1 and isinstance(comp.generators[0].iter, ast.Call) and self._gen_target(modname, cls, fn, comp.generators[0].iter) is not None \
+                            and (isinstance(st, ast.Return) or (len(st.targets) == 1 and isinstance(st.targets[0], ast.Name))):
+                        self.counter += 1
+                        acc = f"_acc__x{self.counter}" if isinstance(st, ast.Return) else st.targets[0].id
+                        g = comp.generators[0]
+                        app: ast.stmt = ast.Expr(value=ast.Call(func=ast.Attribute(value=ast.Name(id=acc, ctx=ast.Load()), attr="append", ctx=ast.Load()), args=[comp.elt], keywords=[]))
+                        for c_ in reversed(g.ifs):
+                            app = ast.If(test=c_, body=[app], orelse=[])
+                        new = [ast.Assign(targets=[ast.Name(id=acc, ctx=ast.Store())], value=ast.List(elts=[], ctx=ast.Load())),
+                               ast.For(target=g.target, iter=g.iter, body=[app], orelse=[], type_comment=None)]
+                        if isinstance(st, ast.Return):
+                            new.append(ast.Return(value=ast.Name(id=acc, ctx=ast.Load())))
+                        for n_ in new:
+                            for x in ast.walk(n_):
+                                ast.copy_location(x, st)
+                            ast.fix_missing_locations(n_)
+                        blk[i:i + 1] = new
+                        continue
+                    if isinstance(st, ast.For) and not st.orelse and isinstance(st.iter, ast.Call) and not any(isinstance(x, (ast.Break, ast.Continue)) for b in st.body for x in ast.walk(b)):
+                        t = self._gen_target(modname, cls, fn, st.iter)
+                        if t is not None:
+                            qual, h, recv = t
+                            params = [a.arg for a in h.args.args]
+                            defaults = [None] * (len(params) - len(h.args.defaults)) + list(h.args.defaults)
+                            binding: Dict[str, ast.expr] = {}
+                            pos_params = params
+                            if recv is not None:
+                                binding[params[0]] = recv
+                                pos_params, defaults = params[1:], defaults[1:]
+                            ok = len(st.iter.args) <= len(pos_params)
+                            for p_, a_ in zip(pos_params, st.iter.args):
+                                binding[p_] = a_
+                            for kw in st.iter.keywords:
+                                if kw.arg in binding or kw.arg not in pos_params:
+                                    ok = False
+                                else:
+                                    binding[kw.arg] = kw.value
+                            for p_, d_ in zip(pos_params, defaults):
+                                if p_ not in binding:
+                                    if d_ is None:
+                                        ok = False
+                                    else:
+                                        binding[p_] = d_
+                            if ok:
+                                self.counter += 1
+                                sfx = f"__x{self.counter}"
+                                body = [_clone(b) for b in h.body]
+                                if body and isinstance(body[0], ast.Expr) and isinstance(body[0].value, ast.Constant) and isinstance(body[0].value.value, str):
+                                    body = body[1:]
+                                stored = {x.id for b in body for x in ast.walk(b) if isinstance(x, ast.Name) and isinstance(x.ctx, (ast.Store, ast.Del))}
+                                mapping: Dict[str, object] = {}
+                                pre: List[ast.stmt] = []
+                                for p_, a_ in binding.items():
+                                    simple = isinstance(a_, (ast.Name, ast.Constant)) or (isinstance(a_, ast.Attribute) and isinstance(a_.value, ast.Name))
+                                    if simple and p_ not in stored:
+                                        mapping[p_] = _clone(a_)
+                                    else:
+                                        mapping[p_] = p_ + sfx
+                                        pre.append(ast.Assign(targets=[ast.Name(id=p_ + sfx, ctx=ast.Store())], value=_clone(a_)))
+                                for n_ in _locals_of(h):
+                                    if n_ not in mapping:
+                                        mapping[n_] = n_ + sfx
+                                try:
+                                    body = [_Renamer(mapping).visit(b) for b in body]
+                                except _Unsupported:
+                                    body = None
+                                if body is not None:
+                                    loop_body, target = st.body, st.target
+
+                                    def replace(stmts):
+                                        out = []
+                                        for b in stmts:
+                                            if isinstance(b, ast.Expr) and isinstance(b.value, ast.Yield):
+                                                out.append(ast.Assign(targets=[_clone(target)], value=b.value.value))
+                                                out.extend(_clone(x) for x in loop_body)
+                                                continue
+                                            for f2 in ("body", "orelse", "finalbody"):
+                                                sub = getattr(b, f2, None)
+                                                if isinstance(sub, list) and sub and isinstance(sub[0], ast.stmt):
+                                                    setattr(b, f2, replace(sub))
+                                            if isinstance(b, ast.Try):
+                                                for hd in b.handlers:
+                                                    hd.body = replace(hd.body)
+                                            out.append(b)
+                                        return out
+                                    new = pre + replace(body)
+                                    for n_ in new:
+                                        for x in ast.walk(n_):
+                                            ast.copy_location(x, st)
+                                        ast.fix_missing_locations(n_)
+                                    blk[i:i + 1] = new
+                                    self.expanded_into.setdefault(qual, set()).add(self._current)
+                                    continue
+                    i += 1
+
     def _do_function(self, modname, cls, fn: ast.FunctionDef):
         self._current = f"{modname}:{cls.name}.{fn.name}" if cls is not None else f"{modname}:{fn.name}"
+        self._splice_generators(modname, cls, fn)
         self._inline_expression_helpers(modname, cls, fn)
         self._rewrite_block(modname, cls, fn, fn.body, _locals_of(fn), 0, "return")
 
